@@ -42,6 +42,7 @@ fn main() {
         let params_v: Vec<(usize, MV)> = vec![(0, MV::Int(r.range(0, 3)))];
         let fam = if idx < 3 { [4, 5, 3][idx] } else { idx % 7 };
         let mut ordered = false;
+        let mut collects = false;
         let mut class_pred: Option<&str> = None;
         let has_par = g.rels.iter().any(|k| mult(g, k) >= 2);
         let pred = |r: &mut Rng, vars: Vec<(usize, Ty, bool)>| -> Option<Ex> {
@@ -66,7 +67,7 @@ fn main() {
             2 => {
                 let pat = Pattern { start: np(&mut r, 0), hops: vec![(rp(&mut r, 1), np(&mut r, 2))] };
                 let arg = Ex::Prop(2, "k".into());
-                let agg = match r.below(4) { 0 => Agg::Count(arg), 1 => Agg::Min(arg), 2 => Agg::Max(arg), _ => Agg::Collect(Ex::Fn(Fun::Id, vec![Ex::Var(2)])) };
+                let agg = match r.below(4) { 0 => Agg::Count(arg), 1 => Agg::Min(arg), 2 => Agg::Max(arg), _ => { collects = true; Agg::Collect(Ex::Fn(Fun::Id, vec![Ex::Var(2)])) } };
                 ("aggregate", Query::Single(vec![Clause::Match(false, vec![pat], None),
                     Clause::Agg(vec![(10, Ex::Var(0))], vec![(11, Agg::CountStar), (12, agg)], ident_proj(&[10, 11, 12]), None, true)]))
             }
@@ -158,7 +159,7 @@ fn main() {
                 }
             }
         }
-        cw.push(format!("{{| cg := {}; cparams := {}; cquery := {}; cordered := {}; i_out := {} |}}", coq_graph(g), coq_params(&params_v), coq_query(&q, g), coq_bool(ordered), coq_outcome(&out, &[20, 21, 22, 23, 24, 25])));
+        cw.push(format!("{{| cg := {}; cparams := {}; cquery := {}; cordered := {}; ccollect := {}; i_out := {} |}}", coq_graph(g), coq_params(&params_v), coq_query(&q, g), coq_bool(ordered), coq_bool(collects), coq_outcome(&out, &[20, 21, 22, 23, 24, 25])));
     }
     cw.flush();
     rep.stats(json!({
